@@ -70,10 +70,14 @@ class Param:
 
 class Func:
     def __init__(self, name, params, ret, cls=None, const=False, static=False, kind="func", ns=None, suffix=None,
-                 ndefault=0, defaults=(), template=None, fmt_suffix=None):
+                 ndefault=0, defaults=(), template=None, fmt_suffix=None, tparams=("T",), tsuffix=None, dsuffix=None):
         self.name, self.params, self.ret, self.cls, self.const, self.static = name, params, ret, cls, const, static
         self.kind, self.ns, self.suffix, self.ndefault, self.defaults = kind, ns, suffix, ndefault, list(defaults)
-        self.template = template          # None or list of instantiation types
+        # None or list of instantiations; each a tuple of types, one per template parameter (a plain string = 1 parameter)
+        self.template = [t if isinstance(t, tuple) else (t,) for t in template] if template else None
+        self.tparams = list(tparams)      # names of the template type parameters
+        self.tsuffix = list(tsuffix) if tsuffix else None   # explicit template_suffix per instantiation (None = automatic)
+        self.dsuffix = list(dsuffix) if dsuffix is not None else None   # default_arg_suffix list
         self.fmt_suffix = fmt_suffix      # explicit function_suffix in YAML
         self.fid = None
         self.consts = {}
@@ -106,8 +110,15 @@ class Spec:
             d = "%s%s %s(%s)%s" % ("static " if f.static else "", ret_cxx(f.ret), f.name, ", ".join(ps), " const" if f.const else "")
         e = {"decl": d}
         if f.template:
-            e["decl"] = "template<typename T> " + d
-            e["cxx_template"] = [{"instantiation": "<%s>" % t} for t in f.template]
+            e["decl"] = "template<%s> " % ", ".join("typename " + t for t in f.tparams) + d
+            e["cxx_template"] = []
+            for i, inst in enumerate(f.template):
+                row = {"instantiation": "<%s>" % ", ".join(inst)}
+                if f.tsuffix and f.tsuffix[i] is not None:
+                    row["format"] = {"template_suffix": f.tsuffix[i]}
+                e["cxx_template"].append(row)
+        if f.dsuffix is not None:
+            e["default_arg_suffix"] = list(f.dsuffix)
         if f.fmt_suffix is not None:
             e["format"] = {"function_suffix": f.fmt_suffix}
         return e
@@ -164,23 +175,55 @@ class Spec:
                 pos[(id(f), nd)] = "_%d" % i if len(lst) > 1 else ""
         return pos
 
+    @staticmethod
+    def tmap(f, inst):
+        """template parameter -> instantiated type"""
+        return dict(zip(f.tparams, inst)) if inst else {}
+
     def c_names(self, f):
-        """[(documented C name, number of defaulted arguments supplied, template type)] for every wrapper of f"""
+        """[(documented C name, number of defaulted arguments supplied, instantiation tuple or None)] for every wrapper
+        of f.  function_suffix: explicit format value, else default_arg_suffix[k] for the variant with k defaulted
+        arguments supplied ("applied from the minimum to the maximum number of arguments"), else the position number.
+        template_suffix: explicit per instantiation, else `_<flat type name>` for one template parameter, else the
+        sequence number of the instantiation."""
         tmpl = self.name_template or "{C_prefix}{C_name_scope}{underscore_name}{function_suffix}{template_suffix}"
         scope = (f.cls + "_") if f.cls else ((f.ns + "_") if f.ns else "")
         uname = {"ctor": "ctor", "dtor": "dtor"}.get(f.kind, f.name)
         pos = self.positions()
-        if f.template:
-            variants = [(f.fmt_suffix or "", 0, t) for t in f.template]
-        else:
-            variants = []
-            for nd in range(len(f.defaults) + 1):
-                sfx = f.fmt_suffix if f.fmt_suffix is not None else pos.get((id(f), nd), "")
-                variants.append((sfx, nd, None))
         out = []
-        for sfx, nd, tt in variants:
+        if f.template:
+            for i, inst in enumerate(f.template):
+                if f.tsuffix and f.tsuffix[i] is not None:
+                    ts = f.tsuffix[i]
+                elif len(inst) == 1:
+                    ts = "_" + inst[0].replace(" ", "_")
+                else:
+                    ts = "_%d" % i
+                out.append((tmpl.format(C_prefix=self.c_prefix(), C_name_scope=scope, underscore_name=uname,
+                                        function_suffix=f.fmt_suffix or "", template_suffix=ts), 0, inst))
+            return out
+        for nd in range(len(f.defaults) + 1):
+            if f.dsuffix is not None and nd < len(f.dsuffix):
+                sfx = f.dsuffix[nd]
+            elif f.fmt_suffix is not None:
+                sfx = f.fmt_suffix
+            else:
+                sfx = pos.get((id(f), nd), "")
             out.append((tmpl.format(C_prefix=self.c_prefix(), C_name_scope=scope, underscore_name=uname, function_suffix=sfx,
-                                    template_suffix=("_" + tt) if tt else ""), nd, tt))
+                                    template_suffix=""), nd, None))
+        return out
+
+    def variant_shapes(self):
+        """distribution keys: templates `tmpl:<#params>x<#instantiations>[+explicit][+result]`, defaults
+        `dflt:req<r>+<n>[:list<k>]`"""
+        out = []
+        for f in self.funcs:
+            if f.template:
+                out.append("tmpl:%dx%d%s%s" % (len(f.tparams), len(f.template), "+explicit" if f.tsuffix and any(f.tsuffix) else "",
+                                              "+result" if f.ret[0] == "tparam" else ""))
+            if f.defaults:
+                out.append("dflt:req%d+%d%s" % (len(f.params), len(f.defaults),
+                                                (":list%d" % len(f.dsuffix)) if f.dsuffix is not None else ""))
         return out
 
     def overload_shapes(self):
@@ -203,7 +246,7 @@ def ret_cxx(r):
     return {"void": "void", "bool": "bool", "enum": "Color", "cstr": "const char *", "stringref": "const std::string &",
             "struct": "Pt", "structptr": "Pt *"}.get(r[0], None) or (
         {"native": r[1], "nativeptr": r[1] + " *", "nativeref": r[1] + " &", "classptr": r[1] + " *", "classref": r[1] + " &",
-         "classcref": "const " + r[1] + " &", "classval": r[1], "tparam": "T"}[r[0]])
+         "classcref": "const " + r[1] + " &", "classval": r[1], "tparam": r[1]}[r[0]])
 
 
 # ------------------------------------------------------------------ generation
@@ -317,6 +360,53 @@ def gen_overloads(r, name, cls=None, with_default=False):
     return out
 
 
+TTYPES = ["int", "double", "long"]
+
+
+def gen_template(r, name):
+    """function template with 1-3 type parameters used in arguments (and maybe the result), 2-4 instantiations with
+    permuted types; explicit template_suffix on a random subset"""
+    import itertools
+    k = r.choice([1, 1, 2, 2, 3])
+    tps = ["T", "U", "V"][:k]
+    allinst = list(itertools.product(TTYPES, repeat=k))
+    r.shuffle(allinst)
+    if k > 1:
+        # make sure a permuted pair is present: <int,double,..> and <double,int,..>
+        a = tuple(["int", "double", "long"][:k])
+        b = tuple(["double", "int", "long"][:k])
+        allinst = [a, b] + [x for x in allinst if x not in (a, b)]
+    inst = allinst[:r.randrange(2, min(4, len(allinst)) + 1)]
+    params = [Param("native", tp, "val", "in", "a%d" % i) for i, tp in enumerate(tps)]
+    if r.random() < 0.4:
+        params.append(Param("native", tps[0], "ref", "in", "a%d" % len(params), const=True))
+    if r.random() < 0.4:
+        params.insert(r.randrange(len(params) + 1), Param("native", "int", "val", "in", "n0"))
+        for i, p in enumerate(params):
+            p.name = "a%d" % i
+    ret = r.choice([("void",), ("tparam", tps[-1]), ("native", "double"), ("tparam", tps[0])])
+    tsuffix = None
+    if r.random() < 0.4:
+        tsuffix = [("_x%d" % i if r.random() < 0.5 else None) for i in range(len(inst))]
+    return Func(name, params, ret, template=inst, tparams=tps, tsuffix=tsuffix)
+
+
+def gen_defaults(r, name, cls=None):
+    """default arguments, the first default at position 0-2, optionally an explicit default_arg_suffix list that is
+    exact, shorter or longer than the number of variants"""
+    nreq = r.randrange(0, 3)
+    nd = r.randrange(1, 4)
+    params = [Param("native", r.choice(["int", "long", "double"]), "val", "in", "a%d" % i) for i in range(nreq)]
+    dts = [("int", 7), ("long", 9), ("int", 3)][:nd]
+    defaults = [(Param("native", t, "val", "in", "d%d" % i), str(v)) for i, (t, v) in enumerate(dts)]
+    dsuffix = None
+    if r.random() < 0.6:
+        n = r.choice([nd + 1, nd + 1, nd, nd + 2, 1])
+        labels = ["_none", "_one", "_two", "_three", "_four", "_five"]
+        dsuffix = labels[:n]
+    return Func(name, params, ("native", "int"), cls=cls, defaults=defaults, dsuffix=dsuffix)
+
+
 def gen_spec(r, name, rich=True, nfree=None):
     spec = Spec(name)
     if r.random() < 0.4:
@@ -362,13 +452,14 @@ def gen_spec(r, name, rich=True, nfree=None):
     for c in allcls:
         if r.random() < 0.5:
             funcs += gen_overloads(r, "put", cls=c)
-    if r.random() < 0.6:
-        nd = r.randrange(1, 3)
-        dts = [("int", 7), ("long", 9)][:nd]
-        defaults = [(Param("native", t, "val", "in", "d%d" % i), str(v)) for i, (t, v) in enumerate(dts)]
-        funcs.append(Func("df", [Param("native", "int", "val", "in", "a0")], ("native", "int"), defaults=defaults))
-    if r.random() < 0.5:
-        funcs.append(Func("tf", [Param("native", "T", "val", "in", "a0")], ("void",), template=["int", "double"]))
+    if r.random() < 0.7:
+        funcs.append(gen_defaults(r, "df"))
+    if allcls and r.random() < 0.4:
+        funcs.append(gen_defaults(r, "dm", cls=r.choice(allcls)))
+    if r.random() < 0.7:
+        funcs.append(gen_template(r, "tf"))
+    if r.random() < 0.3:
+        funcs.append(gen_template(r, "tg"))
     if r.random() < 0.4:
         spec.ns = "ns1"
         for j in range(r.randrange(1, 3)):
@@ -381,7 +472,7 @@ def gen_spec(r, name, rich=True, nfree=None):
     for i, f in enumerate(funcs):
         f.fid = i
         for p in f.params:
-            if p.fam == "native" and p.t != "T":
+            if p.fam == "native" and p.t not in ("T", "U", "V"):
                 f.consts[p.name] = r.choice(DBL if p.t == "double" else INT_T[p.t])
             elif p.fam == "bool":
                 f.consts[p.name] = r.random() < 0.5
@@ -391,6 +482,8 @@ def gen_spec(r, name, rich=True, nfree=None):
                 f.consts[p.name] = (r.randrange(-9, 99), r.choice([0.25, -3.5]))
         if f.ret[0] in ("native", "nativeptr", "nativeref"):
             f.consts["ret"] = r.choice(DBL if f.ret[1] == "double" else INT_T[f.ret[1]])
+        elif f.ret[0] == "tparam":
+            f.consts["ret"] = r.choice([7.5, -2.25, 100.75])
         elif f.ret[0] == "bool":
             f.consts["ret"] = r.random() < 0.5
         elif f.ret[0] == "enum":
@@ -452,12 +545,17 @@ def fixed_spec(name="ogf"):
         Func("put", [N("double", "a0")], ("void",), cls="K0"),
         Func("put", [N("long", "a0")], ("void",), cls="K0"),
         Func("tf", [N("T", "a0")], ("void",), template=["int", "double"]),
+        Func("mix", [N("T", "a0"), N("U", "a1")], ("native", "double"), template=[("int", "double"), ("double", "int")],
+             tparams=("T", "U")),
+        Func("twice", [N("T", "a0")], ("tparam", "T"), template=["int", "double"]),
+        Func("blend", [N("int", "a0")], ("native", "int"), defaults=[(N("int", "d0"), "7"), (N("int", "d1"), "9")],
+             dsuffix=["_a", "_ab", "_abc"]),
     ]
     funcs[1].main = True
     for i, f in enumerate(funcs):
         f.fid = i
         for p in f.params:
-            if p.fam == "native" and p.t != "T":
+            if p.fam == "native" and p.t not in ("T", "U", "V"):
                 f.consts[p.name] = r.choice(DBL if p.t == "double" else INT_T[p.t])
             elif p.fam == "bool":
                 f.consts[p.name] = r.random() < 0.5
@@ -468,6 +566,8 @@ def fixed_spec(name="ogf"):
         k = f.ret[0]
         if k in ("native", "nativeptr", "nativeref"):
             f.consts["ret"] = r.choice((DBL if f.ret[1] == "double" else INT_T[f.ret[1]])[1:])
+        elif k == "tparam":
+            f.consts["ret"] = 7.5
         elif k == "bool":
             f.consts["ret"] = True
         elif k == "enum":
